@@ -1,11 +1,24 @@
 #!/bin/bash
-# multi-seed sweep of the quick tier of every claimed check (no evidence written to /verif/evidence)
-# usage: tools/sweep.sh "1 2 3" [props...]
-seeds=${1:-"1 2 3"}; shift
+# Multi-seed sweep of every claimed check on the UNCHANGED tree (false-alarm hunting).
+#   tools/sweep.sh "<seeds>" [quick|thorough] [props...]
+# Meant for `vp run --with-repo -- ./tools/sweep.sh "1 2 3 4 5" quick`: in a snapshot it builds its own
+# binaries and, when VP_RUN_REPO is set, points the manifests at the /repo snapshot so that edits to
+# /repo itself (seeded changes being tried out) cannot disturb it. Evidence goes to the snapshot.
+ROOT=$(dirname "$(dirname "$(readlink -f "$0")")")
+cd "$ROOT" || exit 2
+seeds=${1:-"1 2 3"}; tier=${2:-quick}; shift 2 2>/dev/null
 props=${@:-C01 C02 C03 C04 C05 C06 C07 C10 C11 C12 C17 C18}
+if [ -n "${VP_RUN_REPO:-}" ] && [ "$ROOT" != "/verif" ]; then
+  sed -i "s#/repo/poly-commit#$VP_RUN_REPO/poly-commit#" sim/Cargo.toml sim-seq/Cargo.toml sim-real/Cargo.toml
+  echo "using repo snapshot $VP_RUN_REPO ($(git -C $VP_RUN_REPO log --oneline -1))"
+fi
+./check setup || exit 2
+bad=0
 for seed in $seeds; do for p in $props; do
-  out=$(VERIF_SEED=$seed PCSIM_REPLAYS=/tmp/sweep-replays /verif/target/sim/release/pcsim run $p --evidence /tmp/sweep-ev.json 2>/dev/null)
-  n=$(echo "$out" | grep -c "^VIOLATION"); h=$(echo "$out" | grep -c "^HARNESS-ERROR")
-  echo "seed=$seed $p violations=$n harness=$h $(echo "$out" | grep '^done' | cut -c1-60)"
-  [ "$n" != "0" ] && echo "$out" | grep "^violation" | cut -c1-300
+  out=$(VERIF_SEED=$seed ./check $p $tier 2>&1); rc=$?
+  n=$(echo "$out" | grep -c "^VIOLATION")
+  echo "seed=$seed $p exit=$rc violations=$n $(echo "$out" | grep '^done' | cut -c1-110)"
+  if [ "$rc" != "0" ]; then bad=1; echo "$out" | grep "^violation\|HARNESS\|minimised" | cut -c1-400; fi
 done; done
+echo "sweep finished bad=$bad"
+exit $bad
